@@ -1,14 +1,16 @@
 import NLE.Proofs.LifeInv
 import NLE.Gen.Shape
+import NLE.Theorems.C11
 /-!
 # C09 — Stop is final (lifecycle clauses)
 
 Proved here, over the lifecycle model: once a stop call has begun, and until the next successful Start, the
 instance is never promoted again and no promotion callback is dispatched; after the stop call's critical section it
 reports STOPPED and not leader.  The clauses about store operations after the stop returned, return-time bounds
-(5 s / time-out), the absence of panics and deadlocks, goroutine clean-up and DeleteKey are evaluated on every
+(5 s / time-out), the absence of panics, goroutine clean-up and DeleteKey are evaluated on every
 trace by the monitors (`C09/store-op-after-stop`, `C09/leader-when-stop-returns`, `C09/record-survives-deletekey`,
-`C09/goroutines-left`, harness watchdog) — see DESIGN.md §6 C09 for what is proved and what is validated.
+`C09/goroutines-left`, harness watchdog) — see DESIGN.md §6 C09 for what is proved and what is validated.  That a stop
+call cannot deadlock on the library's mutexes is the ranked lock order (`stop_no_mutex_deadlock`).
 -/
 namespace NLE.Theorems.C09
 open NLE NLE.Life
@@ -119,5 +121,11 @@ theorem stop_budget_shape : Gen.stopWaitsShareDeadline = true ∧ Gen.stopDelete
 
 example : stopReturn 50 [40, 60, 10] 0 = 50 ∧ stopReturn 50 [10, 20, 5] 0 = 35 := by decide
 
+/-- A stop call cannot be part of a deadlock among the library's mutexes (ranked lock order over the regenerated table of
+    nested acquisitions, see C11), and the only things it waits for while holding one are the promotion goroutine's
+    start signal and nothing else (`C11.waits_under_lock`). -/
+theorem stop_no_mutex_deadlock (s : LockOrder.Snap) (name : Nat → String)
+    (htable : ∀ g m, s.wants g = some m → ∀ h, h ∈ s.holds g → ∃ e ∈ Gen.lockOrder, e.1 = name h ∧ e.2.1 = name m) :
+    ¬ ∃ g, LockOrder.Chain s g g := C11.no_mutex_deadlock s name htable
 
 end NLE.Theorems.C09
